@@ -128,3 +128,31 @@ Qed.
 
 Lemma embedded_gap_all : forall t, In t methods -> embedded_gap_ok t = true.
 Proof. intros t Ht. pose proof methods_gap_ok as H. rewrite forallb_forall in H. now apply H. Qed.
+
+(* ---- ti_coeff = tall-tree elementary weights (finite domain: the shipped methods, k <= stage) ---- *)
+Lemma methods_ti_tall_ok : forallb ti_tall_ok methods = true.
+Proof. vm_compute. reflexivity. Qed.
+
+Lemma tall_order k : 1 <= k -> order (tall k) = k.
+Proof.
+  induction k as [|k IH]; intros Hk; [lia|].
+  destruct k as [|k']; [reflexivity|].
+  change (tall (S (S k'))) with (Gr Tau (tall (S k'))).
+  cbn [order]. rewrite IH by lia. reflexivity.
+Qed.
+
+Lemma ti_coeff_tall_all :
+  forall t, In t methods ->
+  length (ti_coeff t) = length (t_b t) /\
+  forall b row, In (b, row) (combine (t_b t) (ti_coeff t)) ->
+    length row = S (t_stage t) /\
+    forall k, 1 <= k <= t_stage t -> (nth k row 0 == dotq b (Phi (t_a t) (tall k)))%Q.
+Proof.
+  intros t Ht. pose proof methods_ti_tall_ok as H. rewrite forallb_forall in H.
+  specialize (H t Ht). unfold ti_tall_ok in H. apply andb_prop in H. destruct H as [Hl Hr].
+  split; [now apply Nat.eqb_eq|].
+  intros b row Hin. rewrite forallb_forall in Hr. specialize (Hr _ Hin).
+  unfold ti_tall_row_ok in Hr. cbn [fst snd] in Hr. apply andb_prop in Hr. destruct Hr as [Hlen Hk].
+  split; [now apply Nat.eqb_eq|].
+  intros k Hkr. rewrite forallb_forall in Hk. apply Qeq_bool_eq. apply Hk. apply in_seq. lia.
+Qed.
